@@ -24,7 +24,7 @@ pub fn gen_cfg(rng: &mut Rng, allow_sizes: &[usize]) -> String {
         if rng.chance(2, 5) { t.push(format!("{}={}", k, h(&pick_str(rng)))); }
     }
     let sd = if rng.chance(1, 2) { Some(*rng.pick(&[0u32, 1, 1_500_000_000, 1_600_000_000, 1_699_999_999, 1_800_000_000, u32::MAX])) } else { None };
-    if let Some(sd) = sd { t.push(format!("sd={}", sd)); }
+    if let Some(sd) = sd { t.push(format!("sd={}", sd)); if rng.chance(1, 2) { t.push("sdlast".to_string()); } }
     let comp = match rng.below(6) {
         0 => "none".to_string(),
         1 => format!("gzip:{}", rng.below(10)),
